@@ -281,9 +281,9 @@ class ZukoFlow(BaseTorchFlow):
     def log_prob(self, x, xp=torch_api):
         x = torch.as_tensor(x, dtype=self.dtype, device=self.device)
         x_prime, log_abs_det_jacobian = self.rescale(x)
-        return xp.asarray(
-            self._flow().log_prob(x_prime) + log_abs_det_jacobian
-        )
+        with torch.no_grad():
+            log_prob = self._flow().log_prob(x_prime)
+        return xp.asarray(log_prob + log_abs_det_jacobian)
 
     def forward(self, x, xp=torch_api):
         x = torch.as_tensor(x, dtype=self.dtype, device=self.device)
